@@ -27,9 +27,9 @@ DIGITS = "0123456789"
 ODD_CHARS = ["\u00a0", "\u3000", "\u2003", "\u200f", "\u00ad", "\u200d", "\ue000"]
 OTHERS = "!@#$ .-_"
 KEYB = ["1qaz", "qwer", "asdf", "1q2w", "zaq1", "2wsx"]
-KEYB_BY_LEN = {4: KEYB, 5: ["1qaz2", "qwer4", "asdf5", "zaq12", "1q2w3"], 6: ["1qaz2w", "1q2w3e", "zaq12w"]}
+KEYB_BY_LEN = {4: KEYB + ["!QAZ", "1QAZ", "ZAQ!"], 5: ["1qaz2", "qwer4", "asdf5", "zaq12", "1q2w3"], 6: ["1qaz2w", "1q2w3e", "zaq12w"]}
 YEARS = ["2019", "1999", "2000", "1987", "2012"]
-CONTEXT = ["<3", ";p", "#1", "*0*", ":)"]
+CONTEXT = ["<3", ";p", "#1", "*0*", ":)", ":D", ";P", "XD"]
 
 
 def _descending_probs(t, pool, k):
@@ -174,8 +174,17 @@ def gen_omen(t, small=True, safe=True):
         if all(l == 10 for l in ln[ngram - 1:]):
             ln[ngram - 1] = 0
     ep = [[0, c] for c in ctxs]
+    # the level files have no ordering rule: grouped by prefix (as the trainer writes them), sorted by level (sort -n),
+    # or in any order (two files merged)
+    order = t.choice(["grouped", "grouped", "by_level", "shuffled"])
+    if order == "by_level":
+        cp = sorted(cp, key=lambda x: x[0])
+        ip = sorted(ip, key=lambda x: x[0])
+    elif order == "shuffled":
+        cp = t.shuffle(cp)
+        ip = t.shuffle(ip)
     return {"ngram": ngram, "alphabet": alphabet, "ip": ip, "cp": cp, "ep": ep, "ln": ln,
-            "encoding": "utf-8"}
+            "encoding": "utf-8", "line_order": order}
 
 
 TRIVIAL_OMEN = {"ngram": 2, "alphabet": ["a", "b"], "ip": [[0, "a"], [1, "b"]],
@@ -246,6 +255,10 @@ def gen_syn(t, allow_m=True, max_pts=600, hostile=False, force_m=False, omen=Non
         # model they are drawn too, so that budgets of more than 10 levels get spread over several transitions
         hi = 18 if (omen is not None and t.chance(1, 3)) else 4
         lv = sorted({t.between(0, hi) for _ in range(t.between(1, 3))})
+        if len(lv) >= 2 and t.chance(1, 2):
+            # the trainer lists levels by descending probability, which need not be ascending level number (a small list
+            # often has level 3 more probable per guess than level 2)
+            lv = t.shuffle(lv)
         pp = _descending_probs(t, "dyadic" if pool in ("tiny", "longtail") else pool, len(lv))
         if len(pp) >= 2 and t.chance(1, 6):
             pp[1] = pp[0]               # two Markov levels of exactly equal probability form one group
